@@ -120,7 +120,7 @@ def _replay(ctx, repo):
                       "a round-0 message received before start() and left in the buffer is replayed again by the next pause(False): the mixin then sees a message of an old cycle "
                       "('invalid cycle' / 'two messages in a cycle')")
     if n < 2:
-        raise AnalysisError(f"R-REPLAY: {n} replay loops found over {buf} (expected 2)")
+        ctx.defer(f"R-REPLAY: {n} replay loops found over {buf} (expected 2)")
     # replayed messages go back to the agent queue AHEAD of the algorithm messages already waiting there: their priority is a constant below MSG_ALGO
     from .c19 import _const
     msg_algo = _const(repo, "pydcop.infrastructure.communication", "MSG_ALGO")
@@ -140,7 +140,7 @@ def _replay(ctx, repo):
                               "a round-i message kept during a pause must be handled before the round-(i+1) message of the same neighbour that is already waiting in the agent queue "
                               "with MSG_ALGO: replayed behind it, the round order of that channel is inverted and the mixin stalls")
     if k < 2:
-        raise AnalysisError(f"R-REPLAY: {k} re-injection calls found (expected 2)")
+        ctx.defer(f"R-REPLAY: {k} re-injection calls found (expected 2)")
 
 
 def check(ctx: Ctx):
